@@ -24,12 +24,15 @@ func defCallNextMethod() {
 				},
 			},
 			Return: "object",
-			Text:   `__call-next-method__ continues with the rest of the daemon methods using the arguments provided.`,
+			Text: `__call-next-method__ continues with the rest of the daemon methods using the arguments provided
+or, if there are none, the arguments the current method was called with.`,
 			Examples: []string{
 				"(defmethod quux :around ((x fixnum)) (call-next-method))",
 			},
 		}, &Pkg)
 }
+
+const nextMethodArgs = slip.Symbol("~next-method-args~")
 
 // CallNextMethod represents the call-next-method function.
 type CallNextMethod struct {
@@ -45,11 +48,25 @@ func (f *CallNextMethod) Call(s *slip.Scope, args slip.List, depth int) slip.Obj
 	if loc == nil {
 		slip.ErrorPanic(s, depth, "%s called outside an around method qualifier.", f.Name)
 	}
+	if len(args) == 0 {
+		// Without arguments the next method is called with the arguments
+		// the current method was called with.
+		if loc.Args != nil {
+			args = loc.Args
+		} else if s.Has(nextMethodArgs) {
+			args, _ = s.Get(nextMethodArgs).(slip.List)
+		}
+	}
 	if !loc.HasNext() {
 		nnm := slip.MustFindFunc("no-next-method")
 		gf := slip.MustFindFunc(loc.Method.Name)
 
 		return nnm.Apply(s, append(slip.List{gf, loc.Method}, args...), depth)
 	}
-	return loc.Continue(s, args, depth)
+	// The next method may be another :around method. Its location does not
+	// know the arguments so they are left in the scope it is called from.
+	ns := s.NewScope()
+	ns.Let(nextMethodArgs, args)
+
+	return loc.Continue(ns, args, depth)
 }
